@@ -355,39 +355,47 @@ func sameOrPhi(a, b ssa.Value) bool {
 }
 
 func nilSchemaGuard(fn *ssa.Function, ret *ssa.Return, schema, channel ssa.Value) bool {
-	// find If on (schema == nil) whose true branch leads (possibly via SchemaID != 0) to an error return, and
-	// which dominates ret.
-	for _, in := range instrsOf(fn) {
-		b, ok := in.(*ssa.BinOp)
-		if !ok || b.Op != token.EQL {
+	// two tests, nested in either order: schema == nil and channel.SchemaID != 0; where both hold every path returns a
+	// non-nil error; the outer test dominates ret.
+	isSchemaNil := func(v ssa.Value) bool {
+		b, ok := v.(*ssa.BinOp)
+		return ok && b.Op == token.EQL && ((b.X == schema && isNilConst(b.Y)) || (b.Y == schema && isNilConst(b.X)))
+	}
+	isIDNonZero := func(v ssa.Value) bool {
+		c2, ok := v.(*ssa.BinOp)
+		if !ok || c2.Op != token.NEQ {
+			return false
+		}
+		var load ssa.Value
+		if cz, ok := c2.Y.(*ssa.Const); ok && cz.Value != nil && cz.Value.String() == "0" {
+			load = c2.X
+		} else if cz, ok := c2.X.(*ssa.Const); ok && cz.Value != nil && cz.Value.String() == "0" {
+			load = c2.Y
+		}
+		return load != nil && loadOfField(load, "Channel", "SchemaID")
+	}
+	for _, blk := range fn.Blocks {
+		if len(blk.Instrs) == 0 {
 			continue
 		}
-		if !((b.X == schema && isNilConst(b.Y)) || (b.Y == schema && isNilConst(b.X))) {
+		iff, ok := blk.Instrs[len(blk.Instrs)-1].(*ssa.If)
+		if !ok || !blk.Dominates(ret.Block()) {
 			continue
 		}
-		for _, ref := range *b.Referrers() {
-			iff, ok := ref.(*ssa.If)
-			if !ok || !iff.Block().Dominates(ret.Block()) {
-				continue
-			}
-			// true successor: tests SchemaID != 0
-			t := iff.Block().Succs[0]
-			if len(t.Instrs) == 0 {
-				continue
-			}
-			if i2, ok := t.Instrs[len(t.Instrs)-1].(*ssa.If); ok {
-				if c2, ok := i2.Cond.(*ssa.BinOp); ok && c2.Op == token.NEQ {
-					var load ssa.Value
-					if cz, ok := c2.Y.(*ssa.Const); ok && cz.Value != nil && cz.Value.String() == "0" {
-						load = c2.X
-					} else if cz, ok := c2.X.(*ssa.Const); ok && cz.Value != nil && cz.Value.String() == "0" {
-						load = c2.Y
-					}
-					if load != nil && loadOfField(load, "Channel", "SchemaID") && returnsNonNilErrOnAllPaths(fn, t.Succs[0]) {
-						return true
-					}
-				}
-			}
+		a, b := isSchemaNil(iff.Cond), isIDNonZero(iff.Cond)
+		if !a && !b {
+			continue
+		}
+		t := blk.Succs[0]
+		if len(t.Instrs) == 0 {
+			continue
+		}
+		i2, ok := t.Instrs[len(t.Instrs)-1].(*ssa.If)
+		if !ok {
+			continue
+		}
+		if ((a && isIDNonZero(i2.Cond)) || (b && isSchemaNil(i2.Cond))) && returnsNonNilErrOnAllPaths(fn, t.Succs[0]) {
+			return true
 		}
 	}
 	return false
